@@ -1,3 +1,618 @@
 package sctp
 
-func c19EndToEnd(j *Job) {}
+import (
+	"context"
+	"fmt"
+	"time"
+
+	"github.com/pion/sctp/internal/vsched"
+)
+
+// ---------------------------------------------------------------------------------
+// (1) timer object under the scheduler: start / stop / close against the expiry goroutine
+
+type recObserver struct {
+	m        *Sim
+	timeouts []time.Duration
+	ns       []uint
+	failures []time.Duration
+}
+
+func (o *recObserver) onRetransmissionTimeout(id int, n uint) {
+	o.m.mu.Lock()
+	o.timeouts = append(o.timeouts, o.m.S.Now())
+	o.ns = append(o.ns, n)
+	o.m.mu.Unlock()
+}
+
+func (o *recObserver) onRetransmissionFailure(id int) {
+	o.m.mu.Lock()
+	o.failures = append(o.failures, o.m.S.Now())
+	o.m.mu.Unlock()
+}
+
+// timerProgram: a script of operations at virtual instants; the expiry goroutine races with it.
+type timerOp struct {
+	at time.Duration
+	op string // start stop close
+}
+
+func timerScenario(prog []timerOp, maxRetrans uint, rtoMax float64) *Scenario {
+	return &Scenario{
+		Name:    "rtxtimer",
+		Horizon: 120 * time.Second,
+		Setup:   func(m *Sim) { m.S.SuspendTimers = true },
+		Body: func(m *Sim) {
+			obs := &recObserver{m: m}
+			tm := newRTXTimer(7, obs, maxRetrans, rtoMax)
+			type span = struct{ from, to time.Duration } // running between from and to (to<0: still running)
+			var spans []span
+			running := false
+			closed := false
+			for _, op := range prog {
+				if d := op.at - m.S.Now(); d > 0 {
+					m.Sleep(d)
+				}
+				switch op.op {
+				case "start":
+					ok := tm.start(1000)
+					if ok != (!running && !closed) && !(running && len(obs.failures) > 0) {
+						// (after a reported failure the timer is stopped again)
+					}
+					if ok {
+						running = true
+						spans = append(spans, span{m.S.Now(), -1})
+					}
+				case "stop":
+					tm.stop()
+					if running {
+						spans[len(spans)-1].to = m.S.Now()
+					}
+					running = false
+				case "close":
+					tm.close()
+					if running {
+						spans[len(spans)-1].to = m.S.Now()
+					}
+					running = false
+					closed = true
+				}
+				m.S.Yield()
+			}
+			// let everything that is going to fire, fire
+			m.Sleep(40 * time.Second)
+			tm.close()
+			m.Sleep(10 * time.Second)
+			m.mu.Lock()
+			defer m.mu.Unlock()
+			// oracle: expected expiries of every span: from + rto*(2^k - 1) capped, while the span lasts
+			var want []time.Duration
+			var wantN []uint
+			end := m.S.Now()
+			failWant := 0
+			for _, sp := range spans {
+				to := sp.to
+				if to < 0 {
+					to = end - 10*time.Second
+				}
+				t := sp.from
+				for k := uint(0); ; k++ {
+					step := time.Duration(calcBackoff(1000, k, rtoMax)) * time.Millisecond
+					t += step
+					if t > to || (t == to && sp.to >= 0) {
+						break
+					}
+					if maxRetrans != 0 && k+1 > maxRetrans {
+						failWant++
+						break
+					}
+					want = append(want, t)
+					wantN = append(wantN, k+1)
+				}
+			}
+			// expiries that coincide with a stop are legitimately either way: compare leniently on those
+			got := obs.timeouts
+			gi, wi := 0, 0
+			for gi < len(got) || wi < len(want) {
+				switch {
+				case gi < len(got) && wi < len(want) && got[gi] == want[wi]:
+					if obs.ns[gi] != wantN[wi] {
+						m.viol = append(m.viol, Violation{"timer.count", fmt.Sprintf("expiry at %v reported n=%d, want %d (program %v)", got[gi], obs.ns[gi], wantN[wi], prog)})
+					}
+					gi++
+					wi++
+				case gi < len(got) && coincidesWithStop(got[gi], spans):
+					gi++ // an expiry racing with stop()/close() in the same instant may still be reported
+				case wi < len(want):
+					m.viol = append(m.viol, Violation{"timer.missing", fmt.Sprintf("no expiry at %v (n=%d); got %v, want %v (program %v)", want[wi], wantN[wi], got, want, prog)})
+					return
+				default:
+					m.viol = append(m.viol, Violation{"timer.spurious", fmt.Sprintf("unexpected expiry at %v; got %v, want %v (program %v)", got[gi], got, want, prog)})
+					return
+				}
+			}
+			if maxRetrans == 0 && len(obs.failures) > 0 {
+				m.viol = append(m.viol, Violation{"timer.failure", "failure reported by a timer without retry limit"})
+			}
+			if maxRetrans != 0 && len(obs.failures) != failWant {
+				m.viol = append(m.viol, Violation{"timer.failure", fmt.Sprintf("%d failures reported, want %d (program %v)", len(obs.failures), failWant, prog)})
+			}
+			m.obs = append(m.obs, fmt.Sprintf("%v", got))
+		},
+		Final: func(m *Sim, x *Exec) {
+			generalVerdicts(m, x, true)
+			if len(x.ArmedTimers) > 0 {
+				m.Failf("timer-leak", "timer still armed after close")
+			}
+		},
+	}
+}
+
+func calcBackoff(rto float64, n uint, rtoMax float64) float64 {
+	if rtoMax == 0 {
+		rtoMax = 60000
+	}
+	v := rto
+	for i := uint(0); i < n; i++ {
+		v *= 2
+		if v >= rtoMax {
+			return rtoMax
+		}
+	}
+	if v > rtoMax {
+		v = rtoMax
+	}
+	return v
+}
+
+func coincidesWithStop(t time.Duration, spans []struct{ from, to time.Duration }) bool {
+	for _, sp := range spans {
+		if sp.to == t {
+			return true
+		}
+	}
+	return false
+}
+
+// ---------------------------------------------------------------------------------
+// (2) end-to-end timer laws
+
+type c19Spec struct {
+	kind   string // data-blackhole shutdown-blackhole reconfig-blackhole heartbeat karn ackdelay
+	rtoMax float64
+	il     bool
+	delay  time.Duration
+}
+
+func c19Scenario(spec *c19Spec) *Scenario {
+	var facts *wireFacts
+	return &Scenario{
+		Name:    "timers",
+		Horizon: 2000 * time.Second,
+		Setup: func(m *Sim) {
+			if spec.delay > 0 {
+				m.W.delay = [2]time.Duration{spec.delay, spec.delay}
+			} else if spec.kind == "heartbeat0" {
+				m.W.delay = [2]time.Duration{0, 0}
+			}
+			m.W.faults = faultSet{Drop: true, Dup: true}
+		},
+		Body: func(m *Sim) {
+			a := epCfg{NoInterleave: !spec.il, MTU: 228, RTOMax: spec.rtoMax, InitTSN: 0xFFFFFFFD}
+			b := epCfg{Server: true, NoInterleave: !spec.il, MTU: 228, RTOMax: spec.rtoMax, InitTSN: 9}
+			if !m.Connect(a, b) {
+				m.Failf("connect", "handshake failed")
+				m.closeFailedTransports()
+				m.CloseBoth()
+				return
+			}
+			sa, _ := m.As[0].OpenStream(1, PayloadTypeWebRTCBinary)
+			sb, _ := m.As[1].OpenStream(1, PayloadTypeWebRTCBinary)
+			m.streamsSeen = append(m.streamsSeen, sa, sb)
+			isType := func(p *wpkt, typ uint8) bool {
+				if p.dec == nil {
+					return false
+				}
+				for _, c := range p.dec.Chunks {
+					if c.Typ == typ || (typ == wDATA && c.Typ == wIDATA) {
+						return true
+					}
+				}
+				return false
+			}
+			run := 130 * time.Second
+			if spec.rtoMax == 0 {
+				run = 900 * time.Second
+			}
+			switch spec.kind {
+			case "data-blackhole":
+				m.W.killFn = func(p *wpkt) bool { return p.from == 0 && isType(p, wDATA) }
+				sa.WriteSCTP(payload(1, 0, 50), PayloadTypeWebRTCBinary)
+				m.Sleep(run)
+			case "shutdown-blackhole":
+				m.W.killFn = func(p *wpkt) bool { return p.from == 0 && isType(p, wSHUTDOWN) }
+				m.Go("shut", func() {
+					ctx, cancel := context.WithTimeout(context.Background(), run)
+					defer cancel()
+					m.As[0].Shutdown(ctx)
+				})
+				m.Sleep(run + time.Second)
+			case "reconfig-blackhole":
+				m.W.killFn = func(p *wpkt) bool { return p.from == 0 && isType(p, wRECONFIG) }
+				sa.WriteSCTP(payload(1, 0, 50), PayloadTypeWebRTCBinary)
+				m.S.WaitIdle()
+				sa.Close()
+				m.Sleep(run)
+			case "heartbeat", "heartbeat0":
+				m.W.faultsOn = true
+				s0 := m.As[0].SRTT()
+				m.As[0].ActiveHeartbeat()
+				m.Sleep(3 * time.Second)
+				s1 := m.As[0].SRTT()
+				// with one fault the probe (or its answer) may be lost: then a second one must work
+				if s1 == s0 {
+					m.As[0].ActiveHeartbeat()
+					m.Sleep(3 * time.Second)
+					s1 = m.As[0].SRTT()
+				}
+				hb, hback := 0, 0
+				for _, ev := range m.W.events {
+					if ev.Kind == "send" && ev.Pkt.dec != nil {
+						for _, c := range ev.Pkt.dec.Chunks {
+							if c.Typ == wHEARTBEAT && ev.From == 0 {
+								hb++
+								if len(c.Params) != 1 || c.Params[0].Typ != 1 || len(c.Params[0].Val) != 8 {
+									m.Failf("heartbeat.format", "on-demand HEARTBEAT without an 8-byte Heartbeat Info: %s", c.Summary())
+								}
+							}
+							if c.Typ == wHBACK && ev.From == 1 {
+								hback++
+							}
+						}
+					}
+				}
+				if hb == 0 {
+					m.Failf("heartbeat.sent", "ActiveHeartbeat put no HEARTBEAT on the wire")
+				}
+				if hback == 0 {
+					m.Failf("heartbeat.answer", "the peer never answered the HEARTBEAT (%d sent)", hb)
+				}
+				wantRTT := float64((m.W.delay[0] + m.W.delay[1]).Milliseconds())
+				if wantRTT > 0 && s1 == s0 {
+					m.Failf("heartbeat.rtt", "no round-trip sample after the heartbeat exchange (SRTT stays %v)", s1)
+				}
+				m.Observe("hb=%d ack=%d", hb, hback)
+			}
+			m.W.killFn = nil
+			m.W.faultsOn = false
+			m.CloseBoth()
+		},
+		Final: func(m *Sim, x *Exec) {
+			generalVerdicts(m, x, false)
+			facts = runWireMonitors(m, x, monOpts{})
+			rtoMax := spec.rtoMax
+			if rtoMax == 0 {
+				rtoMax = 60000
+			}
+			checkGaps := func(what string, times []time.Duration, minExp int) {
+				// drop sends at the same instant (PTO probe together with T3)
+				var ts []time.Duration
+				for _, t := range times {
+					if len(ts) == 0 || t != ts[len(ts)-1] {
+						ts = append(ts, t)
+					}
+				}
+				if len(ts)-1 < minExp {
+					m.Failf("backoff.gaveup", "%s: only %d retransmissions in the run (times %v)", what, len(ts)-1, ts)
+					return
+				}
+				for i := 1; i < len(ts); i++ {
+					gap := ts[i] - ts[i-1]
+					want := time.Duration(calcBackoff(1000, uint(i-1), rtoMax)) * time.Millisecond
+					if gap != want {
+						m.Failf("backoff.interval", "%s: retransmission %d came %v after the previous transmission, want %v (times %v)", what, i, gap, want, ts)
+						return
+					}
+				}
+			}
+			switch spec.kind {
+			case "data-blackhole":
+				for _, tsn := range facts.XmitOrder[0] {
+					checkGaps(fmt.Sprintf("DATA TSN %d", tsn), facts.Xmit[0][tsn].Times, 12)
+				}
+			case "shutdown-blackhole", "reconfig-blackhole":
+				typ := uint8(wSHUTDOWN)
+				if spec.kind == "reconfig-blackhole" {
+					typ = wRECONFIG
+				}
+				var times []time.Duration
+				for _, ev := range x.Events {
+					if ev.Kind == "send" && ev.From == 0 && ev.Pkt.dec != nil && ev.Pkt.dec.Chunks[0].Typ == typ {
+						times = append(times, ev.At)
+					}
+				}
+				checkGaps(wTypeName(typ), times, 12)
+			}
+		},
+	}
+}
+
+// ackDelayOracle / karnOracle run over fault-enumerated transfer executions.
+func ackDelayOracle(m *Sim, x *Exec) {
+	type rstate struct {
+		have map[uint32]bool
+		cum  uint32
+		init bool
+	}
+	var rs [2]rstate
+	rs[0].have, rs[1].have = map[uint32]bool{}, map[uint32]bool{}
+	type pend struct {
+		at        time.Duration
+		immediate bool
+		what      string
+	}
+	var pending [2][]pend
+	shut := false
+	for _, ev := range x.Events {
+		if ev.Pkt.dec == nil {
+			continue
+		}
+		switch ev.Kind {
+		case "deliver":
+			y := 1 - ev.From
+			r := &rs[y]
+			hasData := false
+			immediate := false
+			for _, c := range ev.Pkt.dec.Chunks {
+				switch c.Typ {
+				case wINIT, wINITACK:
+					if !r.init {
+						r.cum, r.init = c.InitTSN-1, true
+					}
+				case wSHUTDOWN, wSHUTDOWNACK, wABORT:
+					shut = true
+				case wDATA, wIDATA:
+					hasData = true
+					if r.have[c.TSN] || sna32lte(c.TSN, r.cum) {
+						immediate = true // duplicate
+					} else if c.TSN != r.cum+1 {
+						immediate = true // creates a gap
+					}
+					r.have[c.TSN] = true
+					for r.have[r.cum+1] {
+						r.cum++
+					}
+				case wFWDTSN, wIFWDTSN:
+					if sna32lt(r.cum, c.NewCum) {
+						r.cum = c.NewCum
+						for r.have[r.cum+1] {
+							r.cum++
+						}
+					}
+				}
+			}
+			if hasData && !shut {
+				// still a gap after processing: fails to fill it
+				for t := range r.have {
+					if sna32lt(r.cum, t) {
+						immediate = true
+					}
+				}
+				pending[y] = append(pending[y], pend{ev.At, immediate, ev.Pkt.dec.Summary()})
+			}
+		case "send":
+			y := ev.From
+			isSack := false
+			for _, c := range ev.Pkt.dec.Chunks {
+				if c.Typ == wSACK || c.Typ == wSHUTDOWN {
+					isSack = true
+				}
+				if c.Typ == wSHUTDOWN || c.Typ == wSHUTDOWNACK || c.Typ == wABORT {
+					shut = true
+				}
+			}
+			if isSack {
+				for _, p := range pending[y] {
+					d := ev.At - p.at
+					if d > 200*time.Millisecond {
+						m.Failf("ack.delay", "endpoint %d acknowledged %s only after %v", y, p.what, d)
+					} else if p.immediate && d != 0 {
+						m.Failf("ack.immediate", "endpoint %d: %s (gap or duplicate) was acknowledged after %v, not at once", y, p.what, d)
+					}
+				}
+				pending[y] = nil
+			}
+		}
+	}
+	if !shut {
+		for y := 0; y < 2; y++ {
+			for _, p := range pending[y] {
+				if x.Elapsed-p.at > 300*time.Millisecond && m.As[y] != nil {
+					// never acknowledged although the run went on
+					closedAt := time.Duration(0)
+					for _, h := range x.Hist {
+						if h.Call == fmt.Sprintf("close%d", y) {
+							closedAt = h.At
+						}
+					}
+					if closedAt == 0 || closedAt-p.at > 250*time.Millisecond {
+						m.Failf("ack.delay", "endpoint %d never acknowledged %s delivered at %v", y, p.what, p.at)
+					}
+				}
+			}
+		}
+	}
+}
+
+// karnHook samples SRTT at every quiescent point; karnOracle explains every change.
+type srttSample struct {
+	ev   int
+	srtt [2]float64
+}
+
+func karnOracle(m *Sim, x *Exec, samples []srttSample) {
+	// sender bookkeeping: transmissions per TSN so far, acked set
+	type sstate struct {
+		nsent map[uint32]int
+		acked map[uint32]bool
+	}
+	var ss [2]sstate
+	for i := range ss {
+		ss[i] = sstate{map[uint32]int{}, map[uint32]bool{}}
+	}
+	justified := map[int][2]bool{} // event index -> per endpoint: a SACK delivered here newly acked a once-sent TSN
+	for i, ev := range x.Events {
+		if ev.Pkt.dec == nil {
+			continue
+		}
+		switch ev.Kind {
+		case "send":
+			for _, c := range ev.Pkt.dec.Chunks {
+				if c.Typ == wDATA || c.Typ == wIDATA {
+					ss[ev.From].nsent[c.TSN]++
+				}
+			}
+		case "deliver":
+			y := 1 - ev.From
+			for _, c := range ev.Pkt.dec.Chunks {
+				var newly []uint32
+				switch c.Typ {
+				case wSACK, wSHUTDOWN:
+					for t := range ss[y].nsent {
+						if ss[y].acked[t] {
+							continue
+						}
+						cov := sna32lte(t, c.CumAck)
+						for _, g := range c.Gaps {
+							if d := t - c.CumAck; d >= uint32(g.Start) && d <= uint32(g.End) && d < 1<<16 {
+								cov = true
+							}
+						}
+						if cov {
+							newly = append(newly, t)
+						}
+					}
+				case wHBACK:
+					j := justified[i]
+					j[y] = true
+					justified[i] = j
+				}
+				for _, t := range newly {
+					ss[y].acked[t] = true
+					if ss[y].nsent[t] == 1 {
+						j := justified[i]
+						j[y] = true
+						justified[i] = j
+					}
+				}
+			}
+		}
+	}
+	for k := 1; k < len(samples); k++ {
+		for y := 0; y < 2; y++ {
+			if samples[k].srtt[y] == samples[k-1].srtt[y] {
+				continue
+			}
+			ok := false
+			for i := samples[k-1].ev; i < samples[k].ev && i < len(x.Events); i++ {
+				if justified[i][y] {
+					ok = true
+				}
+			}
+			if !ok {
+				m.Failf("karn", "endpoint %d: SRTT changed %v -> %v between wire events %d and %d although no SACK delivered in between newly acknowledged a chunk that was transmitted exactly once", y, samples[k-1].srtt[y], samples[k].srtt[y], samples[k-1].ev, samples[k].ev)
+			}
+		}
+	}
+}
+
+func c19EndToEnd(j *Job) {
+	// (1) timer object
+	progs := [][]timerOp{
+		{{0, "start"}},
+		{{0, "start"}, {1000 * time.Millisecond, "stop"}, {1000 * time.Millisecond, "start"}},
+		{{0, "start"}, {1000 * time.Millisecond, "stop"}, {1500 * time.Millisecond, "start"}, {4500 * time.Millisecond, "stop"}, {4500 * time.Millisecond, "start"}},
+		{{0, "start"}, {3000 * time.Millisecond, "stop"}, {3000 * time.Millisecond, "start"}, {9 * time.Second, "close"}},
+		{{0, "start"}, {500 * time.Millisecond, "start"}, {7000 * time.Millisecond, "close"}, {7000 * time.Millisecond, "start"}},
+		{{0, "start"}, {1000 * time.Millisecond, "close"}},
+		{{0, "start"}, {999 * time.Millisecond, "stop"}, {1000 * time.Millisecond, "start"}, {2000 * time.Millisecond, "stop"}, {2000 * time.Millisecond, "start"}, {3000 * time.Millisecond, "stop"}},
+	}
+	for pi, prog := range progs {
+		for _, mr := range []uint{0, 3} {
+			d := 2
+			if j.Thorough() {
+				d = 3
+			}
+			j.Explore(fmt.Sprintf("T/prog%d/max%d", pi, mr), timerScenario(prog, mr, 4000), Budget{D: d}, nil)
+			if j.capped() {
+				return
+			}
+		}
+	}
+	// (2) end to end
+	for _, il := range []bool{false, true} {
+		for _, rm := range []float64{4000, 0} {
+			for _, kind := range []string{"data-blackhole", "shutdown-blackhole", "reconfig-blackhole"} {
+				if !j.Thorough() && il && rm == 0 {
+					continue
+				}
+				j.Explore(fmt.Sprintf("E/%s/rtomax%v/il%v", kind, rm, il), c19Scenario(&c19Spec{kind: kind, rtoMax: rm, il: il}), Budget{}, nil)
+			}
+		}
+		for _, kind := range []string{"heartbeat", "heartbeat0"} {
+			for _, dl := range []time.Duration{0, 30 * time.Millisecond} {
+				if kind == "heartbeat0" && dl != 0 {
+					continue
+				}
+				j.Explore(fmt.Sprintf("E/%s/delay%v/il%v", kind, dl, il), c19Scenario(&c19Spec{kind: kind, rtoMax: 4000, il: il, delay: dl}), Budget{K: 1}, nil)
+			}
+		}
+	}
+	// (3) Karn's rule and ack delay over fault-enumerated transfers
+	modes := stdModes()
+	var cases []xferCase
+	cases = append(cases, famW1(modes, []uint32{0}, 1)...)
+	cases = append(cases, famW1(modes[:1], []uint32{6}, 2)...)
+	cases = append(cases, famW5(modes[:2], 1)...)
+	// two consecutive chunks lost, the retransmission of the first lost again (gap-acked retransmission)
+	for _, mode := range modes {
+		mtu := uint32(100)
+		spec := &xferSpec{A: withBase(mode.A, mtu, 0xFFFFFFFC, 4000), B: withBase(mode.B, mtu, 3, 4000),
+			Streams: []streamSpec{{SID: 1, From: 0, Msgs: []msgSpec{{Size: 60, PPI: 53}, {Size: 61, PPI: 53}, {Size: 62, PPI: 53}, {Size: 63, PPI: 53}}}},
+			Kill:    []killRule{{SID: 1, Msg: 1, Frag: -1, N: 2}, {SID: 1, Msg: 2, Frag: -1, N: 1}}, Faults: allFaults}
+		cases = append(cases, xferCase{Name: "K/" + mode.Name + "/rtx-gapacked", K: 1, Spec: spec})
+	}
+	for _, c := range cases {
+		spec := c.Spec
+		var samples []srttSample
+		res := &xferResult{}
+		spec.Final = func(m *Sim, x *Exec, r *xferResult) {
+			generalVerdicts(m, x, false)
+			ackDelayOracle(m, x)
+			karnOracle(m, x, samples)
+			m.Observe("%s", deliverySummary(spec, r))
+		}
+		sc := xferScenario(spec, res)
+		setup := sc.Setup
+		sc.Setup = func(m *Sim) {
+			samples = nil
+			setup(m)
+			m.quiescentHooks = append(m.quiescentHooks, func() {
+				var s srttSample
+				s.ev = len(m.W.events)
+				for i := 0; i < 2; i++ {
+					if m.As[i] != nil {
+						s.srtt[i] = m.As[i].SRTT()
+					}
+				}
+				samples = append(samples, s)
+			})
+		}
+		j.Explore(c.Name, sc, Budget{K: c.K}, nil)
+		if j.capped() {
+			return
+		}
+	}
+}
+
+var _ = vsched.CatSched
